@@ -5,17 +5,40 @@ import vlib
 class P(vlib.Prop):
     pid = "C17"
     coq_dirs = ["Common", "C17"]
-    coq_targets = ["C17/Harness.vo"]
+    coq_targets = ["C17/Properties.vo", "C17/Witness.vo", "C17/Harness.vo"]
     properties_module = "C17.Properties"
     properties_file = "C17/Properties.v"
+    instance_obligations = []
     harness_module = "C17.Harness"
     case_type = "vcase"
     shard = 60
     harnesses = [
         vlib.Harness("batch", "processor/batchprocessor", ".",
                      {"zz_verif_c17_ir_test.go": "C17/ir_test.go", "zz_verif_c17_test.go": "C17/batch_test.go"},
-                     "^TestVerifC17$", "batchprocessor", timeout=900),
+                     "^TestVerifC17$", "batchprocessor", timeout=1500),
     ]
-    rule = ""
-    trusted_base = []
-    assumptions = []
+    rule = ("split: the real splitLogs/splitTraces/splitMetrics on generated payload trees (0-3 resources x 0-3 scopes "
+            "[x 0-3 metrics of the 5 types + empty] x 0-10 items, shapes small/big-scope/many-tiny/empty), size 0, inside, "
+            "count-1, >= count; returned payload and remainder compared with the model, ids + resource + scope + both "
+            "schema URLs + whole metric identity.  run: the real processor (logs, traces, metrics) with a recording sink, "
+            "validated configs (timeout 0 / 1 h, send_batch_size 0-10, max 0 or size..size+4, 0-3 metadata keys in mixed "
+            "case, cardinality limit 0-3), scripts of 1-10 Consume calls with generated client metadata (absent / empty / "
+            "one / two values / other keys) and timer firings (the shard's own timer is made to expire once the shard is "
+            "quiescent), then Shutdown; per export-context tuple the sequence of exported payloads and the class of every "
+            "Consume result are compared with the model.  validate: Config.Validate classes.  Not compared with the model "
+            "but checked by the direct oracle: 8 concurrent producers (real 1-5 ms timers), real 30 ms timeout flush.  "
+            "A split case is non-trivial when it cuts, a run when it exports >= 2 batches, a validate case when rejected; "
+            "distinct = distinct case terms.")
+    trusted_base = [
+        "Coq 8.16.1 kernel + vm_compute (coqc); no axioms (Print Assumptions: closed under the global context)",
+        "hand-written model coq/C17/Model.v of batch_processor.go, split{logs,traces,metrics}.go, Config.Validate, client.Metadata, tied to the code by the correspondence run on every check",
+        "abstraction: Resource / Scope / item = opaque identity carried by an attribute; nil and empty value lists identified; attribute.Set equality = equality of the per-key value lists",
+        "Go harness harness/C17/*.go + go test -overlay; Go toolchain; the harness fires a shard's time.Timer by Reset(1ns) when the shard is quiescent (logical time)",
+    ]
+    assumptions = [
+        "one goroutine per shard owns batch and timer: each select branch (receive, timer, shutdown) is atomic w.r.t. the shard",
+        "a Consume call is one step (Load + locked section + channel send) or, for a stale Load miss, the locked section + send (label LConsumeStale); the newItem channel is modelled unbounded (a blocked producer has not been accepted yet)",
+        "the downstream consumer accepts every export (an error is only logged by the processor and the batch is dropped, by design)",
+        "bp_timeout: time is logical; a timer fires exactly at its deadline (timely schedules); wall-clock accuracy of time.Timer and goroutine scheduling latency are outside",
+        "Consume calls concurrent with or after Shutdown are outside the property ('accepted before shutdown began')",
+    ]
